@@ -13,8 +13,13 @@ Modelling decisions (all part of the trusted base, see DESIGN section 6 item 6):
 * the local copy is cashews' `Memory` restricted to what is used here: a TTL map with milliseconds in which a TTL-less
   write onto a live entry keeps that entry's deadline (C01).  Its capacity (10000) is never reached.
 * the connection is up (failures are C19's subject); the server's answers are those of `Srv.exec`.
-* `set` / `set_lock` are modelled as repaired (finding D26): the local copy is written after the server accepted.
-* `reconnect` also forgets the echo marks (finding D31, repaired).
+* `set` / `set_lock` write the local copy after the server accepted and take the echo mark back otherwise (finding D26,
+  repaired in the code); `reconnect` also forgets the echo marks (finding D31, repaired in the code).
+* `scan` does not consult the local copy; `get_match` reads the server's SCAN pages through `get_many` (one page: the
+  keyspace is smaller than `batch_size`); `get_expire` answers from the local copy when that holds a positive TTL, else asks
+  the server and re-times the local entry with the answer (whole seconds).
+* `expire(k, 0)` (a timeout below 1 ms) is modelled as repaired (finding D37, in the code): the server deletes the key, so the
+  local copy gets the "known absent" marker and no echo mark, as in `delete`.
 -/
 namespace CashewsVerif.Redis.CS
 open CashewsVerif CashewsVerif.Redis
@@ -78,6 +83,20 @@ def lexpire (c : Client) (now : Nat) (k : String) (ms : Nat) : Client :=
   match c.lfind now k with
   | none => c
   | some e => c.lset now k e.val (some ms)
+
+/-- Python's `round` of a non-negative time in milliseconds to whole seconds (ties go to the even neighbour) -/
+def roundSecs (ms : Nat) : Nat :=
+  let q := ms / 1000
+  let r := ms % 1000
+  if r < 500 then q else if 500 < r then q + 1 else if q % 2 = 0 then q else q + 1
+
+/-- `Memory.get_expire`: NOT_EXIST = -2, UNLIMITED = -1, else `round(expire_at - time.time())` -/
+def lttl (c : Client) (now : Nat) (k : String) : Int :=
+  match c.lfind now k with
+  | none => -2
+  | some e => match e.dl with
+    | none => -1
+    | some d => (roundSecs (d - now) : Nat)
 
 def ldelMatch (c : Client) (pat : String) : Client :=
   { c with loc := fun k => if glob pat k then none else c.loc k }
@@ -145,6 +164,9 @@ def advance (st : St) (dt : Nat) : St :=
 inductive Op where
   | get (c : Nat) (k : String)
   | getMany (c : Nat) (ks : List String)
+  | getMatch (c : Nat) (pat : String)
+  | scan (c : Nat) (pat : String)
+  | getExpire (c : Nat) (k : String)
   | exists_ (c : Nat) (k : String)
   | set (c : Nat) (k : String) (v : CVal) (ttl : Option Nat) (cond : Cond)
   | setMany (c : Nat) (kvs : List (String × CVal)) (ttl : Option Nat)
@@ -181,6 +203,22 @@ def tokVal : Bytes → CVal
   | .num i => .int i
   | .blob h => .obj h
 
+/-- `get_many`: key by key the same decision as `get` (the misses go to the server in one MGET and are remembered) -/
+def getManyCore (st : St) (i : Nat) (ks : List String) : St × List (Option CVal) :=
+  let c := st.cl i
+  let ans : String → Option CVal := fun k =>
+    match (if c.started then c.lfind (now st) k else none) with
+    | some ⟨.val v, _⟩ => some v
+    | some ⟨.absent, _⟩ => none
+    | none => srvValue st k
+  let c' := ks.foldl (fun c' k =>
+    match (if c.started then c.lfind (now st) k else none) with
+    | some _ => c'
+    | none => match srvValue st k with
+      | some v => c'.lset (now st) k (.val v) none
+      | none => c'.lset (now st) k .absent none) c
+  ({ st with cl := upd st.cl i c' }, ks.map ans)
+
 def step (st : St) : Op → St × ROut
   | .get i k =>
     -- local hit (value or "known absent") when the listener runs; else read through and remember
@@ -192,21 +230,30 @@ def step (st : St) : Op → St × ROut
       match srvValue st k with
       | some v => ({ st with cl := upd st.cl i (c.lset (now st) k (.val v) none) }, .val (some v))
       | none => ({ st with cl := upd st.cl i (c.lset (now st) k .absent none) }, .val none)
-  | .getMany i ks =>
-    -- key by key the same decision as `get` (the misses go to the server in one MGET)
+  | .getMany i ks => ((getManyCore st i ks).1, .vals (getManyCore st i ks).2)
+  | .getMatch i pat =>
+    -- `cursor, keys = await self._client.scan(cursor, match=…)`; `values = await self.get_many(*keys, default=_empty)`;
+    -- the pairs whose value is not `_empty` are yielded
+    let ks := Ref.matching st.srv.ks pat
+    ((getManyCore st i ks).1, .pairs ((ks.zip (getManyCore st i ks).2).filterMap fun kv => kv.2.map fun v => (kv.1, v)))
+  | .scan _ pat =>
+    -- `async for key in super().scan(self._add_prefix(pattern)): yield self._remove_prefix(key)` — the server's keys
+    (st, .keys (Ref.matching st.srv.ks pat))
+  | .getExpire i k =>
+    -- `if await self._local_cache.get_expire(key) > 0 and self._listen_started.is_set(): return <that>`
+    -- `expire = await super().get_expire(…); await self._local_cache.expire(key, expire); return expire`
     let c := st.cl i
-    let ans : String → Option CVal := fun k =>
-      match (if c.started then c.lfind (now st) k else none) with
-      | some ⟨.val v, _⟩ => some v
-      | some ⟨.absent, _⟩ => none
-      | none => srvValue st k
-    let c' := ks.foldl (fun c' k =>
-      match (if c.started then c.lfind (now st) k else none) with
-      | some _ => c'
-      | none => match srvValue st k with
-        | some v => c'.lset (now st) k (.val v) none
-        | none => c'.lset (now st) k .absent none) c
-    ({ st with cl := upd st.cl i c' }, .vals (ks.map ans))
+    if decide (0 < c.lttl (now st) k) && c.started then (st, .int (c.lttl (now st) k))
+    else
+      match (st.srv.exec (.ttl k)).2 with
+      | .int t =>
+        -- `Memory.expire(key, t)`: a live entry is stored again with deadline now + t; a negative t (-1: no TTL on the
+        -- server, -2: no key) leaves it expired, i.e. gone; 0 is "no new TTL"
+        let c' := match c.lfind (now st) k with
+          | none => c
+          | some e => if t < 0 then c.ldel k else c.lset (now st) k e.val (some (t.toNat * 1000))
+        ({ st with cl := upd st.cl i c' }, .int t)
+      | _ => (st, .none_)
   | .exists_ i k =>
     let c := st.cl i
     match (if c.started then c.lfind (now st) k else none) with
@@ -249,8 +296,10 @@ def step (st : St) : Op → St × ROut
       ((srvCmd st0 (.unlink (Ref.matching st.srv.ks pat))).1, .none_)     -- scan + unlink of the pages (C19)
     else ((srvCmd st0 (.unlink [pat])).1, .none_)
   | .expire i k ms =>
+    -- `if int(timeout * 1000) <= 0: await self._local_cache.set(key, _empty_in_redis); return await super().expire(…)` (D37)
     let c := st.cl i
-    let c' := match c.lfind (now st) k with
+    let c' := if ms = 0 then c.lset (now st) k .absent none else
+      match c.lfind (now st) k with
       | some ⟨.val _, _⟩ => (c.lexpire (now st) k ms).mark (now st) k
       | _ => c
     ((srvCmd { st with cl := upd st.cl i c' } (.pexpire k ms)).1, .none_)
